@@ -375,7 +375,7 @@ fn gen_c12(cfg: &GenCfg, rng: &mut Rng, w: &mut dyn Write, kind: &str) {
         }
         writeln!(w, "case c12-n3-o{}", oi).unwrap();
         prelude(w, n, order, 1, 1024, true);
-        let varss: Vec<u32> = if zbdd(kind) { vec![n] } else { vec![n, n + 1, n + 60, n + 61, n + 70, n + 125, 1100] };
+        let varss: Vec<u32> = vec![n, n + 1, n + 60, n + 61, n + 70, n + 125, 1100];
         for f in 0..nf {
             for &vars in &varss {
                 for ty in tys {
@@ -403,7 +403,7 @@ fn gen_c12(cfg: &GenCfg, rng: &mut Rng, w: &mut dyn Write, kind: &str) {
         let pool = rand_pool(w, rng, n, if cfg.thorough { 80 } else { 40 });
         for s in 0..(if cfg.thorough { 300 } else { 100 }) {
             let f = rng.pick(&pool).clone();
-            let vars = if zbdd(kind) { n } else { *rng.pick(&[n, n, n + 1, n + 50, n + 70, 1100]) };
+            let vars = *rng.pick(&[n, n, n + 1, n + 50, n + 70, 1100]);
             let ty = rng.pick(&tys);
             if rng.chance(1, 2) {
                 writeln!(w, "satcount {} {} {} cache=c{}", f, vars, ty, rng.below(2)).unwrap();
